@@ -211,3 +211,112 @@ def c04_boxed_assign_wider_rhs(f, line, impl, spec):
         return False
     na, nb = int(t[1]), int(t[3])
     return nb > na and impl != 'panic' and 'panic' in spec.split(' || ') and not impl.startswith('routes-differ')
+
+
+def _c18_bytes(tok):
+    return bytes.fromhex(tok[1:]) if tok.startswith('x') and len(tok) % 2 == 1 else None
+
+
+def _c18_der_len(b):
+    """canonical DER definite length at the start of b -> (length, octets used) or None"""
+    if not b:
+        return None
+    l = b[0]
+    if l < 0x80:
+        return l, 1
+    k = l - 0x80
+    if not 1 <= k <= 4 or len(b) < 1 + k or b[1] == 0:
+        return None
+    v = int.from_bytes(b[1:1 + k], 'big')
+    if v < 0x80 or v > 0xfffffff:
+        return None
+    return v, 1 + k
+
+
+def _c18_der_magnitude(content):
+    """canonical non-negative INTEGER content octets -> magnitude octets without the pad, or None"""
+    c = content
+    if not c or c[0] >= 0x80:
+        return None
+    if len(c) > 1 and c[0] == 0:
+        if c[1] < 0x80:
+            return None
+        return c[1:]
+    return c
+
+
+def c18_known(f, line, impl, model):
+    """
+    The recorded C18 defects, each recognised by the SHAPE of the input and the exact wrong answer
+    (any other wrong answer on the same operations stays a VIOLATION):
+      kind=der_oversize : a well-formed canonical DER INTEGER (resp. ANY content / UintRef bytes) whose
+                          magnitude has more octets than the target type -> panic instead of an error
+      kind=rlp_lenient  : rlp::decode accepts (a) bytes after the item, (b) a long-form header 0xb8 for a
+                          payload of <= 55 octets; the returned value is the payload's value
+    `model` is the L0 column (what the property demands): `err` in all these cases.
+    """
+    t = line.split()
+    op = t[0]
+    if model != 'err':
+        return False
+    try:
+        nbytes = 8 * int(t[1])
+    except (IndexError, ValueError):
+        return False
+    kind = f.get('kind')
+    if kind == 'der_oversize':
+        if impl != 'panic':
+            return False
+        if op == 'c18.der.uintref' and len(t) == 3:
+            b = _c18_bytes(t[2])
+            return b is not None and len(b.lstrip(b'\0') or b[-1:]) > nbytes
+        if op == 'c18.der.any' and len(t) == 4:
+            b = _c18_bytes(t[3])
+            if t[2] != 'x02' or b is None:
+                return False
+            m = _c18_der_magnitude(b)
+            return m is not None and len(m) > nbytes
+        if op in ('c18.der.from_der', 'c18.der.any_from_der') and len(t) == 3:
+            b = _c18_bytes(t[2])
+            if b is None or len(b) < 2 or b[0] != 2:
+                return False
+            hl = _c18_der_len(b[1:])
+            if hl is None:
+                return False
+            ln, used = hl
+            content = b[1 + used:1 + used + ln]
+            if len(content) != ln:
+                return False
+            trailing = len(b) - (1 + used + ln)
+            if trailing and op == 'c18.der.any_from_der':
+                return False
+            m = _c18_der_magnitude(content)
+            return m is not None and len(m) > nbytes
+        return False
+    if kind == 'rlp_lenient':
+        if op != 'c18.rlp.decode' or len(t) != 3:
+            return False
+        b = _c18_bytes(t[2])
+        if not b:
+            return False
+        l = b[0]
+        longform = False
+        if l < 0x80:
+            payload, used = b[:1], 1
+        elif l <= 0xb7:
+            payload, used = b[1:1 + l - 0x80], 1 + l - 0x80
+            if len(payload) != l - 0x80 or (len(payload) == 1 and payload[0] < 0x80):
+                return False
+        elif l == 0xb8 and len(b) >= 2 and 1 <= b[1] <= 55:
+            payload, used = b[2:2 + b[1]], 2 + b[1]
+            longform = True
+            if len(payload) != b[1]:
+                return False
+        else:
+            return False
+        if (payload and payload[0] == 0) or len(payload) > nbytes:
+            return False
+        if not longform and used == len(b):
+            return False                      # canonical input: nothing lenient about it
+        return impl == format(int.from_bytes(payload, 'big'), 'x')
+    return False
